@@ -1,4 +1,198 @@
-import GcmpyModel.Model.Mixing
+import GcmpyModel.Lemmas.Mixing
+/-!
+# C13 — mixing-matrix extractors
+
+Model: `GcmpyModel/Model/Mixing.lean` (`countEdgeTypes`, `getEjk`, `excessKeys`, `getEjks`,
+`getEjksUnrepaired`, `callsFrom`, `overallEjk`, `splitKeys`) for
+`gcmpy/tools/joint_excess_joint_degree.py` (repaired: the edge counter is reset in `count_edge_types`),
+`gcmpy/tools/joint_excess_degree.py` and `get_excess_degree_keys` of
+`gcmpy/tools/joint_excess_joint_degree_matrices.py`.  Values are exact rationals (core `Rat`).
+All proofs live in `GcmpyModel/Lemmas/Mixing.lean` (`aux_*`); this file only states the properties.
+
+Vocabulary (defined in `Lemmas/Mixing.lean`):
+* `numE net name`      — number of edges of topology `name`;
+* `ends net i name`    — the edge ends of topology `name`: every edge `(u, v)` of that topology contributes
+                         `(excess u, excess v)` and `(excess v, excess u)` (own excess tuple, partner's);
+* `Uniform net T`      — every annotated joint-degree tuple has length `T`;
+* `Annotated net`      — both end points of every edge carry an annotation;
+* `oEnds edges`        — overall-degree variant: `(deg u - 1, deg v - 1)` and `(deg v - 1, deg u - 1)` per edge.
+Matrix keys are concatenations `a ++ b`; with tuples of one common length `T` the pair `(a, b)` is
+recovered from the key, which is what the hypotheses `Uniform`/`Annotated`/`a.length = T` are for.
+-/
 namespace Gcmpy.Mixing
-theorem placeholder_c13 : True := trivial
+open Gcmpy Gcmpy.Loaders
+
+variable {net : ANet} {T : Nat}
+
+/-! ## 1. the edge counter -/
+
+/-- `count_edge_types` (started from `{}`) counts the edges of every topology; absent topologies are absent -/
+theorem count_edge_types (net : ANet) (name : String) :
+    Dict.get (countEdgeTypes net []) name = if numE net name = 0 then none else some (numE net name) :=
+  aux_count_edge_types net name
+
+/-! ## 2. the entries of `get_ejk` -/
+
+/-- entry `(a, b)` is exactly the fraction of that topology's edge ends whose own vertex has excess tuple
+`a` and whose partner has excess tuple `b`; keys that are not such a pair are absent.
+(`b.length = T` is not needed: a `b` of another length gives `none` on both sides.) -/
+theorem ejk_value (hU : Uniform net T) (hA : Annotated net) (i : Nat) (name : String) (a b : JD)
+    (ha : a.length = T) :
+    Dict.get (getEjk net (countEdgeTypes net []) i name) (a ++ b) =
+      if (a, b) ∈ ends net i name then
+        some ((((ends net i name).count (a, b) : Nat) : Rat) / (2 * (numE net name : Rat)))
+      else none :=
+  aux_ejk_value hU hA i name a b ha
+
+/-! ## 3. symmetry, normalisation, marginals, key uniqueness -/
+
+theorem ejk_symmetric (hU : Uniform net T) (hA : Annotated net) (i : Nat) (name : String) (a b : JD)
+    (ha : a.length = T) (hb : b.length = T) :
+    Dict.get (getEjk net (countEdgeTypes net []) i name) (a ++ b) =
+      Dict.get (getEjk net (countEdgeTypes net []) i name) (b ++ a) :=
+  aux_ejk_symmetric hU hA i name a b ha hb
+
+/-- the matrix of a topology that has at least one edge sums to one (no hypothesis on the annotation) -/
+theorem ejk_sums_one (net : ANet) (i : Nat) (name : String) (hE : 0 < numE net name) :
+    ((getEjk net (countEdgeTypes net []) i name).map (·.2)).sum = 1 :=
+  aux_ejk_sums_one net i name hE
+
+/-- row sum: the entries whose key starts with `a` (`Σ_b ejk[(a, b)]`) add up to the fraction of that
+topology's edge ends whose own vertex has excess tuple `a` -/
+theorem ejk_row_sums (hU : Uniform net T) (hA : Annotated net) (i : Nat) (name : String) (a : JD) :
+    (((getEjk net (countEdgeTypes net []) i name).filter (fun p => p.1.take T = a)).map (·.2)).sum =
+      ((((ends net i name).filter (fun q => q.1 = a)).length : Nat) : Rat) / (2 * (numE net name : Rat)) :=
+  aux_ejk_row_sums hU hA i name a
+
+/-- the association list modelling the matrix has one entry per key (whatever the counter) -/
+theorem ejk_keys_nodup (net : ANet) (ne : List (String × Nat)) (i : Nat) (name : String) :
+    (Dict.keys (getEjk net ne i name)).Nodup :=
+  aux_ejk_keys_nodup net ne i name
+
+/-- the keys of the matrix are exactly the concatenated edge ends (whatever the counter and annotation) -/
+theorem ejk_keys (net : ANet) (ne : List (String × Nat)) (i : Nat) (name : String) (k : JD) :
+    k ∈ Dict.keys (getEjk net ne i name) ↔ ∃ q ∈ ends net i name, k = q.1 ++ q.2 :=
+  aux_ejk_keys net ne i name k
+
+/-- there are `2·E` edge ends -/
+theorem ends_length (net : ANet) (i : Nat) (name : String) : (ends net i name).length = 2 * numE net name :=
+  length_ends net i name
+
+/-! ## 4. repeatability of the repaired `get_ejks` -/
+
+/-- `get_ejks` does not depend on the extractor state it is called in -/
+theorem get_ejks_state_independent (net : ANet) (names : List String) (s s' : Ext) :
+    getEjks net names s = getEjks net names s' :=
+  getEjks_indep net names s s'
+
+/-- every one of any number of successive calls on one extractor returns the matrices of the first call -/
+theorem get_ejks_repeatable (net : ANet) (names : List String) (n : Nat) :
+    ∀ m ∈ callsFrom net names n ⟨[]⟩, m = (getEjks net names ⟨[]⟩).2 :=
+  aux_get_ejks_repeatable net names n ⟨[]⟩
+
+/-- (and `callsFrom … n` does consist of `n` results) -/
+theorem calls_length (net : ANet) (names : List String) (n : Nat) (s : Ext) :
+    (callsFrom net names n s).length = n :=
+  callsFrom_length net names n s
+
+/-! ## 5. regression witness: the pinned (unrepaired) behaviour -/
+
+/-- two vertices, one edge, one topology -/
+def tiny : ANet := ⟨[(0, [1]), (1, [1])], [(0, 1, "t")]⟩
+
+/-- without the reset the second call on the same extractor divides by an edge count of 2 instead of 1:
+its matrix sums to `1/2` (the first call's matrix sums to `1`) -/
+theorem second_call_halves :
+    ((getEjksUnrepaired tiny ["t"] ⟨[]⟩).2.map fun m => (m.2.map (·.2)).sum) = [1] ∧
+    ((getEjksUnrepaired tiny ["t"] (getEjksUnrepaired tiny ["t"] ⟨[]⟩).1).2.map
+        fun m => (m.2.map (·.2)).sum) = [1 / 2] ∧
+    (getEjksUnrepaired tiny ["t"] (getEjksUnrepaired tiny ["t"] ⟨[]⟩).1).2 = [("t", [([0, 0], 1 / 2)])] := by
+  decide +kernel
+
+/-- the repaired extractor on the same network: both calls return the matrix `{(0,0): 1}` -/
+example : callsFrom tiny ["t"] 2 ⟨[]⟩ = [[("t", [([0, 0], 1)])], [("t", [([0, 0], 1)])]] := by
+  decide +kernel
+
+/-! ## 6. the pre-computed excess keys cover the matrix keys -/
+
+/-- under annotation consistency (both end points of every edge of topology `name` have a positive
+`i`-th joint-degree component) both halves of every key of `get_ejk(i, name)` are listed in
+`resolve_excess_degree_keys` for index `i` -/
+theorem excess_keys_cover (hA : Annotated net) (i : Nat) (name : String)
+    (hC : ∀ e ∈ net.edges, e.2.2 = name →
+      1 ≤ (jdOf net e.1).getD i 0 ∧ 1 ≤ (jdOf net e.2.1).getD i 0) :
+    ∀ q ∈ ends net i name, q.1 ∈ excessKeys net i ∧ q.2 ∈ excessKeys net i :=
+  aux_excess_keys_cover hA i name hC
+
+/-! ## 7. overall-degree variant (`JointExcessDegree.get_ejk`)
+
+No loop-freeness is needed for these statements about the model (a self-loop `(u, u)` contributes the end
+`(deg u - 1, deg u - 1)` twice, as the Python code does). -/
+
+theorem overall_value (edges : List (Nat × Nat)) (j k : Nat) :
+    Dict.get (overallEjk edges) [j, k] =
+      if (j, k) ∈ oEnds edges then
+        some ((((oEnds edges).count (j, k) : Nat) : Rat) / (2 * (edges.length : Rat)))
+      else none :=
+  aux_overall_value edges j k
+
+theorem overall_symmetric (edges : List (Nat × Nat)) (j k : Nat) :
+    Dict.get (overallEjk edges) [j, k] = Dict.get (overallEjk edges) [k, j] :=
+  aux_overall_symmetric edges j k
+
+theorem overall_sums_one (edges : List (Nat × Nat)) (hE : 0 < edges.length) :
+    ((overallEjk edges).map (·.2)).sum = 1 :=
+  aux_overall_sums_one edges hE
+
+theorem overall_keys_nodup (edges : List (Nat × Nat)) : (Dict.keys (overallEjk edges)).Nodup :=
+  aux_overall_keys_nodup edges
+
+theorem overall_ends_length (edges : List (Nat × Nat)) : (oEnds edges).length = 2 * edges.length :=
+  length_oEndsIn _ _
+
+/-! ## 8. `get_excess_degree_keys` -/
+
+theorem split_keys_spec (ejk : Table) (h : JD) :
+    h ∈ splitKeys ejk ↔
+      ∃ p ∈ ejk, h = p.1.take (p.1.length / 2) ∨ h = p.1.drop (p.1.length / 2) :=
+  aux_split_keys_spec ejk h
+
+/-! ## 9. non-vacuity: a 4-vertex network with two topologies
+
+Topology "a" is the triangle 0–1–2 (its edge 0–2 joins two vertices of equal excess tuple: a self-paired
+class), topology "b" joins vertex 3 to 0 and 2. -/
+
+def net4 : ANet :=
+  ⟨[(0, [2, 1]), (1, [2, 0]), (2, [2, 1]), (3, [0, 2])],
+   [(0, 1, "a"), (2, 3, "b"), (1, 2, "a"), (0, 3, "b"), (0, 2, "a")]⟩
+
+example : Uniform net4 2 := by unfold Uniform; decide +kernel
+example : Annotated net4 := by unfold Annotated; decide +kernel
+example : ∀ e ∈ net4.edges, e.2.2 = "a" →
+    1 ≤ (jdOf net4 e.1).getD 0 0 ∧ 1 ≤ (jdOf net4 e.2.1).getD 0 0 := by decide +kernel
+example : ∀ e ∈ net4.edges, e.2.2 = "b" →
+    1 ≤ (jdOf net4 e.1).getD 1 0 ∧ 1 ≤ (jdOf net4 e.2.1).getD 1 0 := by decide +kernel
+
+example : numE net4 "a" = 3 ∧ numE net4 "b" = 2 ∧ numE net4 "c" = 0 := by decide +kernel
+
+example : ends net4 0 "a" =
+    [([1, 1], [1, 0]), ([1, 0], [1, 1]), ([1, 0], [1, 1]), ([1, 1], [1, 0]), ([1, 1], [1, 1]), ([1, 1], [1, 1])] := by
+  decide +kernel
+
+/-- the matrices, written out -/
+example : (getEjks net4 ["a", "b"] ⟨[]⟩).1.numEdges = [("a", 3), ("b", 2)] ∧
+    (getEjks net4 ["a", "b"] ⟨[]⟩).2 =
+     [("a", [([1, 1, 1, 0], 1 / 3), ([1, 0, 1, 1], 1 / 3), ([1, 1, 1, 1], 1 / 3)]),
+      ("b", [([2, 0, 0, 1], 1 / 2), ([0, 1, 2, 0], 1 / 2)])] := by
+  decide +kernel
+
+example : excessKeys net4 0 = [[1, 1], [1, 0]] ∧ excessKeys net4 1 = [[2, 0], [0, 1]] := by decide +kernel
+
+example : splitKeys (getEjk net4 (countEdgeTypes net4 []) 0 "a") = [[1, 1], [1, 0]] := by decide +kernel
+
+/-- overall-degree variant on the path 0–1–2 -/
+example : overallEjk [(0, 1), (1, 2)] = [([0, 1], 1 / 2), ([1, 0], 1 / 2)] := by decide +kernel
+
+example : oEnds [(0, 1), (1, 2)] = [(0, 1), (1, 0), (1, 0), (0, 1)] := by decide +kernel
+
 end Gcmpy.Mixing
